@@ -79,6 +79,9 @@ func runC14(r *fw.Run, p *fw.Program) {
 		const d = "tojson/to_jsonl text is what fromjson reads back: colorjson's string, array and object roles have exactly the engine encoder's effects (escape table, \\u00XX form, invalid UTF-8 replacement) and the string loop writes every input byte exactly once (C07.json string/array/object obligations, C07.scan)"
 		r.Import(sc, "C07.json", "C14.jsonenc", d, 20, func(k string) bool { return !strings.Contains(k, "float:") })
 		r.Import(sc, "C07.scan", "C14.jsonenc", d, 20, nil)
+		// a number survives tojson | fromjson only if its digits come from the exact printer of its type
+		c10JSONRules(sc, p)
+		r.Import(sc, "C10.json", "C14.jsonenc", d, 20, func(k string) bool { return strings.Contains(k, "one-printer") })
 	}
 }
 
